@@ -14,7 +14,7 @@ RULE = ("(a) 1-3 token/character/line mutations (delete, duplicate, swap, replac
         "non-trivial = the mutated text differs from the original and is >= 3 lines")
 ASSUMPTIONS = ["the leaf classes' own stray exceptions and the wall-clock bound live outside the model: the block-level theorem "
                "outcome_classified proves the plumbing, this stream is the search"]
-TIE_MODULES = ["FparserModel.Block"]
+TIE_MODULES = ["FparserModel.Block", "FparserModel.IoStmt", "FparserModel.IoStmtPins", "FparserModel.Generated.IoStmtTables"]
 
 PUNCT = list("()[],:;=+-*/%&!'\".<>_$#@?\\~^{}|`") + ["::", "=>", "**", "//", "(/", "/)", "==", "/=", ".and.", ".x.", "1.0e", "'", '"']
 KW = ["end", "if", "then", "else", "do", "program", "function", "subroutine", "module", "contains", "type", "select", "case",
@@ -268,5 +268,6 @@ def cases(tier, seed):
 
 
 def run(tier, rep, st):
+    util.sub_cosim(rep, tier, "cosim_iostmt", "Fp.IoStmt", 50, 600)
     results = engine.run_cases(__name__, cases(tier, rep.seed), rep)
     rep.evaluations = sum(r.get("evals", 0) for r in results)
